@@ -192,6 +192,18 @@ func (e *Engine) doCall(st *State, call *ssa.CallCommon, fnv Val, args []Val, re
 			key = "<dynamic func value>"
 		}
 	}
+	if top := st.frames[0].contract; top != nil && len(top.CallsOnly) > 0 && st.summary == nil {
+		ok := false
+		for _, a := range top.CallsOnly {
+			if strings.Contains(key, a) {
+				ok = true
+			}
+		}
+		if !ok {
+			st.addCheck(&Check{Name: fmt.Sprintf("%s.callsonly[%s]", e.curFunc, lastSeg(key)), Kind: "callsonly", Goal: "false", Pos: posStr(e, pos), Tags: top.CallsTags, Func: e.curFunc,
+				Clause: "callsonly " + strings.Join(top.CallsOnly, ", ") + "  (call to " + key + ")"})
+		}
+	}
 	c := e.lookupContract(key)
 	var hookInstr ssa.Instruction
 	if ci, ok := retTo.(ssa.Instruction); ok && len(st.frames) == 1 {
